@@ -124,7 +124,12 @@ def recreated(ctx, recs, stats):
   prev = None
   for r in picks + picks[:1]:
     sc = svz.StudyConfig()
-    sc.search_space = ssutil.build_space(r['tree'])
+    try:
+      sc.search_space = ssutil.build_space(r['tree'])
+    except Exception as e:  # pylint: disable=broad-except
+      ctx.violation({'via': 'present', 'what': 'valid-definition-refused', 'route': 'selector', 'error': type(e).__name__},
+                    {'kind': 'present', 'tree': r['tree'], 'route': 'selector', 'error': '%s: %s' % (type(e).__name__, str(e)[:200])})
+      continue
     sc.metric_information.append(vz.MetricInformation('a', goal=vz.ObjectiveMetricGoal.MAXIMIZE))
     sc.algorithm = 'RANDOM_SEARCH'
     if prev is not None:
